@@ -29,7 +29,16 @@ def judge(ctx, status: str) -> list[dict]:
     finished = [(s, e) for s, e in delivered if isinstance(e, events.ScenarioFinished)]
     interrupted = ctx.interrupted()
     max_examples = cfg.get("max_examples")
-    wire = ctx.netlog
+    all_wire = ctx.netlog
+    # requests a check sends on its own (ignored_auth probes: credential missing or replaced) are not generated cases; they
+    # count for the rate limit (R6) only
+    sec = (ctx.universe.desc.get("security") or {}).get("expected") if "ignored_auth" in cfg.get("checks", []) else None
+
+    def is_probe(r) -> bool:
+        return sec is not None and r.op is not None and ctx.universe.ops[r.op].secured and r.request.header(sec["header"]) != sec["value"]
+
+    wire = [r for r in all_wire if not is_probe(r)]
+    ctx.extra["c12_probes"] = len(all_wire) - len(wire)
 
     # R1: fuzzing requests <= max_examples for operations on which nothing failed
     if max_examples is not None and "fuzzing" in cfg.get("phases", []):
@@ -172,6 +181,10 @@ def judge(ctx, status: str) -> list[dict]:
                         f"with unique_inputs the same request was sent twice to {r.op}: {r.request.method} {r.request.url} (phases {seen[k]} and {r.phase})",
                         what="duplicate_request",
                         same_phase=seen[k] == r.phase,
+                        # de-duplication works on the generated case: a user-configured credential that replaces a generated
+                        # security parameter makes distinct cases identical on the wire
+                        credential_replaces_generated=bool(
+                            (cfg.get("headers") or cfg.get("auth")) and ctx.universe.desc.get("security") and ctx.universe.ops[r.op].secured),
                     )
                     break
                 seen[k] = r.phase
@@ -202,7 +215,7 @@ def judge(ctx, status: str) -> list[dict]:
         limit, unit = rl.split("/")
         limit = int(limit)
         window = {"s": 1.0, "m": 60.0, "h": 3600.0, "d": 86400.0}[unit]
-        times = sorted(r.vtime for r in wire if r.phase in ("examples", "coverage", "fuzzing", "stateful"))
+        times = sorted(r.vtime for r in all_wire if r.phase in ("examples", "coverage", "fuzzing", "stateful"))
         allowed = limit + int(cfg.get("workers", 1))
         j = 0
         worst = 0
